@@ -219,6 +219,31 @@ func evalCase(d caseDesc) ev.Result {
 		body = m.ProveDeviceBody(peer.Token64{Signer: sk, PSS: pss})
 	case "replay-session", "replay-device":
 		body = replayBody
+	case "alg-label":
+		// a token made without the device key (signed by a stranger of the same or of the other key
+		// family, or carrying random signature bytes) whose protected alg names another registered
+		// algorithm than the key it was made with
+		kindOf := w.cfg.Kind()
+		signer := keys.Get(kindOf, deploy.KeyStranger)
+		if d.Proof.Mut.Arg%3 == 1 {
+			other := "ec256"
+			if !keys.IsRSA(kindOf) {
+				other = "rsa2048"
+			}
+			signer = keys.Get(other, deploy.KeyStranger)
+		}
+		tok := m.ProveDeviceBody(peer.Token64{Signer: signer, PSS: w.cfg.PSS() && keys.IsRSA(kindOf)})
+		tree, _ := refcbor.ParseAll(tok)
+		arr := tree.Items[0]
+		algs := []int64{-7, -35, -36, -257, -258, -259, -37, -38, -39}
+		label := algs[d.Proof.Mut.Node%len(algs)]
+		arr.Items[0] = refcbor.B(refcbor.Encode(refcbor.M(refcbor.I(1), refcbor.I(label))))
+		if d.Proof.Mut.Arg%3 == 2 {
+			sig := make([]byte, []int{64, 96, 132, 256, 384}[d.Proof.Mut.Node%5])
+			_, _ = rand.Read(sig)
+			arr.Items[3] = refcbor.B(sig)
+		}
+		body = refcbor.EncodeKeepOrder(tree)
 	case "accomplice":
 		// a complete, fresh, internally consistent token of ANOTHER device enrolled with this owner:
 		// its key, its UEID, this session's nonce (two changes that are each refused alone)
@@ -556,7 +581,7 @@ func genCase(t *rapid.T) caseDesc {
 		d.Cfg = deploy.Config{Key: rapid.SampledFrom([]string{"P-256", "P-384"}).Draw(t, "eckey"), Enc: rapid.SampledFrom(deploy.EncNames).Draw(t, "enc"), Cipher: rapid.SampledFrom(deploy.CipherNames).Draw(t, "cipher")}
 		d.Cfg.Kex = deploy.DefaultKex(d.Cfg.Key)
 	}
-	kind := rapid.SampledFrom([]string{"honest", "skip", "signer", "replay-session", "replay-device", "accomplice", "ueid", "ueid", "claims", "claims", "claims", "mutate", "mutate", "mutate", "xb"}).Draw(t, "kind")
+	kind := rapid.SampledFrom([]string{"honest", "skip", "signer", "replay-session", "replay-device", "accomplice", "alg-label", "ueid", "ueid", "claims", "claims", "claims", "mutate", "mutate", "mutate", "xb"}).Draw(t, "kind")
 	d.Proof.Kind = kind
 	switch kind {
 	case "signer":
@@ -569,6 +594,8 @@ func genCase(t *rapid.T) caseDesc {
 		d.Proof.XBOp = rapid.SampledFrom(xbOps).Draw(t, "xop")
 	case "mutate":
 		d.Proof.Mut = refcbor.Mutation{Node: rapid.IntRange(0, 60).Draw(t, "node"), Op: "auto", Arg: int64(rapid.IntRange(-4000, 4000).Draw(t, "arg"))}
+	case "alg-label":
+		d.Proof.Mut = refcbor.Mutation{Node: rapid.IntRange(0, 44).Draw(t, "label"), Arg: int64(rapid.IntRange(0, 2).Draw(t, "how"))}
 	}
 	d.Later = genLater(t)
 	if rapid.IntRange(0, 2).Draw(t, "interleave") == 0 {
@@ -597,7 +624,7 @@ func TestC02(t *testing.T) {
 		}
 		return res
 	})
-	r.SetRule("attacks", "an attack client against the real owner service behind the real HTTP handler: honest 60/62*, then a ProveDevice that is honest, omitted, signed by another key (stranger, owner, another device of this owner, key of another kind), a genuine token replayed from another session of this device or from another device, a fresh token of another enrolled device (its key AND its UEID, this session's nonce), a device-signed token whose UEID names another GUID (other device, first/last byte changed, wrong type byte, short, long, text) or whose claims are omitted / mistyped / stale / swapped (incl. the unprotected SetupDevice nonce and the FDO claim), one structure-aware mutation of the honest token, or a garbled key-exchange parameter; optionally with a session of another enrolled device started (or proven) on the same server between this session's HelloDevice and its ProveDevice; followed by 66/68/70 in or out of order, protected honestly, sent in plaintext, under self-chosen keys (random, all-zero, all-ones), under the keys of another proven session, or as garbage. Oracle: an independent reference decides from the bytes sent whether the token is signed by the voucher's device key over this session's nonce and the voucher GUID; SetupDevice(65) only for such a token (and then it decrypts under keys derived from the token's xB); 67/69/71 only after that and only for messages protected under this session's keys; without a valid proof the journal shows no ReplaceVoucher and no owner-module call; no panic. Non-trivial: any forged proof or any later message sent without proof or without the session keys; distinct by descriptor.")
+	r.SetRule("attacks", "an attack client against the real owner service behind the real HTTP handler: honest 60/62*, then a ProveDevice that is honest, omitted, signed by another key (stranger, owner, another device of this owner, key of another kind), a genuine token replayed from another session of this device or from another device, a fresh token of another enrolled device (its key AND its UEID, this session's nonce), a token made without the device key whose protected alg names any of the nine registered signature algorithms (stranger key of the same or the other family, or random signature bytes), a device-signed token whose UEID names another GUID (other device, first/last byte changed, wrong type byte, short, long, text) or whose claims are omitted / mistyped / stale / swapped (incl. the unprotected SetupDevice nonce and the FDO claim), one structure-aware mutation of the honest token, or a garbled key-exchange parameter; optionally with a session of another enrolled device started (or proven) on the same server between this session's HelloDevice and its ProveDevice; followed by 66/68/70 in or out of order, protected honestly, sent in plaintext, under self-chosen keys (random, all-zero, all-ones), under the keys of another proven session, or as garbage. Oracle: an independent reference decides from the bytes sent whether the token is signed by the voucher's device key over this session's nonce and the voucher GUID; SetupDevice(65) only for such a token (and then it decrypts under keys derived from the token's xB); 67/69/71 only after that and only for messages protected under this session's keys; without a valid proof the journal shows no ReplaceVoucher and no owner-module call; no panic. Non-trivial: any forged proof or any later message sent without proof or without the session keys; distinct by descriptor.")
 	ev.Rapid(r, "attacks", ev.N{Quick: 6000, Thorough: 200000}, genCase, evalCase)
 	ev.CheckWitness(r, "attacks", evalCase)
 }
